@@ -8,7 +8,8 @@ RULE = ("random op sequences (length 1-25/40) over 1-2 instruments x 1-3 client 
         "non-trivial when the observed order tables change at least once")
 ASSUMPTIONS = [
     "order snapshots carry the states an exchange can report (in-flight echo, open, cancelled, fully filled, failed, expired); hand-built snapshots carrying a CancelInFlight marker are modelled as the code treats them but are outside the lifecycle table (hypothesis exchangeStatesOnly)",
-    "time_monotone excludes re-sending an open request for an id that is already tracked (the code overwrites the entry with OpenInFlight and logs an error)",
+    "time_monotone excludes re-sending an open request for an id that is already tracked (the code overwrites the entry with OpenInFlight and logs an error; witness theorem duplicate_request_witness)",
+    "READING of the timestamp clause: 'the exchange-reported data HELD for an order never moves back' is decided per tracking episode (time_monotone_episode, time_monotone_run): once the lifecycle clause has made the engine forget an order (terminal report, confirmed cancel) nothing is held, and a stale open report that arrives afterwards starts a new episode with its old timestamp, as the lifecycle clause ('becomes tracked when the exchange reports it open') itself demands. The history open t=5; cancelled; open t=1 is the kernel-checked witness resurrection_witness; the same history violates C09's unambiguous wording ('always carry the greatest exchange timestamp delivered so far') and is recorded there as known finding clause=ord_resurrected",
     "FnvHashMap<ClientOrderId, Order> behaves as an association list with unique keys",
     "static order fields other than quantity/price (side, kind, time in force, strategy) are not modelled; they are never read by the tracking code",
 ]
